@@ -553,6 +553,11 @@ func shrinkW(sc *scen.WScen) []*scen.WScen {
 		c.Fault.Short = false
 		out = append(out, c)
 	}
+	if sc.Fault != nil && sc.Fault.Transient {
+		c := clone()
+		c.Fault.Transient = false
+		out = append(out, c)
+	}
 	return out
 }
 
